@@ -99,10 +99,15 @@ def tokenise_open_tag(out: str, name: str):
 def run_hist(hist, H, choice):
     t = H.Tag("div")
     obs = []
+    left = []          # tags that were left behind by a "clone" step, with their attributes at that time
     for step, o in enumerate(hist):
         exc = "none"
         try:
-            if o["op"] == "new":
+            if o["op"] == "clone":
+                # a new tag built from the attribute map of the old one (the way wrappers forward `tag.attrs`)
+                left.append((t, proj_attrs(t, H)))
+                t = H.Tag("div", t.attrs) if (choice >> step) & 1 else H.Tag("span", t.attrs, "child")
+            elif o["op"] == "new":
                 dicts, kw = split_dicts(o["items"], H, choice >> step)
                 try:
                     if (choice >> (step + 7)) & 1:
@@ -130,9 +135,10 @@ def run_hist(hist, H, choice):
             exc = "TypeError"
         except Exception as ex:  # noqa
             exc = type(ex).__name__
-        obs.append({"attrs": proj_attrs(t, H), "exc": exc})
+        obs.append({"attrs": proj_attrs(t, H), "exc": exc,
+                    "othersSame": all(proj_attrs(o_, H) == p0 for o_, p0 in left)})
     out = t.get_html_string()
-    toks, closed = tokenise_open_tag(out, "div")
+    toks, closed = tokenise_open_tag(out, t.name)
     return obs, toks, closed, t
 
 
@@ -189,6 +195,8 @@ class _AttrBase(Prop):
                         v = {"k": v["k"], "t": v["t"] + [59]}
                     items = [[nm, v]]
                 hist.append({"op": op, "items": items})
+                if rnd.random() < 0.12:
+                    hist.append({"op": "clone", "items": []})
                 if op in ("new", "update", "setitem") and items and rnd.random() < 0.2:
                     # the same characters for the same name again, with the other trust marking (a later update or
                     # item assignment replaces, also when old and new value compare equal as strings)
